@@ -22,11 +22,15 @@ LEMMAS = [
  ("label4_valid", "Full. The model's own flood fill label4 satisfies valid_labelling for every rectangular non-negative image (flood invariant + potential argument for its fuel)."),
  ("fill_self_correct", "Full. IMAGE LEVEL, no hypothesis about the labelling left: fill_self (label4 + fill_core) terminates and paints every pixel correctly."),
  ("binary_agrees_with_fill", "Full. Binary input: the output is non-zero exactly on the foreground and on background pixels not connected to the border through background (ordinary 4-connected hole filling); needs the full 'numbers the components' hypothesis (components_separate)."),
+ ("label4_separate", "Full. The other half of 'numbers the components' for the model's flood fill: equal numbers only inside one 4-connected component (seed-path invariant)."),
+ ("binary_agrees_with_fill_self", "Full, no hypothesis left: on every rectangular 0/1 image the model with its own labelling is ordinary 4-connected hole filling."),
+ ("fill_idempotent", "Full. Filling twice equals filling once, for every image and any valid labellings of input and output; no unique-parent hypothesis (every region of the output is again derivable by R1-R3 in the output's graph)."),
+ ("fill_self_idempotent", "Full, no hypothesis left: f_out (fill_self (f_out (fill_self x))) = f_out (fill_self x) for every rectangular non-negative image."),
  ("unch_exec_lfp", "Full. The checker's naive rule iteration, once its closure test passes, is exactly Unch."),
  ("fill_check_sound", "Full. Checker soundness: fill_check = true implies every output pixel satisfies pixel_ok."),
 ]
 src = ["From Coq Require Import ZArith List Bool.",
-       "From Centro Require Import Base.FillZMap Model.FillHoles Spec.FillHoles Proofs.FillWalk1 Proofs.FillWalk2 Proofs.FillGraph Proofs.FillSpec Proofs.FillFuel Proofs.FillLists Proofs.FillRagged Proofs.FillImage Proofs.FillLabel.",
+       "From Centro Require Import Base.FillZMap Model.FillHoles Spec.FillHoles Proofs.FillWalk1 Proofs.FillWalk2 Proofs.FillGraph Proofs.FillSpec Proofs.FillFuel Proofs.FillLists Proofs.FillRagged Proofs.FillImage Proofs.FillLabel Proofs.FillIdem.",
        "Set Printing Width 100. Set Printing Depth 1000."]
 for n, _ in LEMMAS:
     src.append('Check %s.' % n)
@@ -43,11 +47,9 @@ body = ["(* C08 - property theorems.  Only statements, each closed by [exact], e
         "   Generated by tools/gen_props_c08.py from the types of the lemmas in Proofs/Fill*.v; Examples showing that the",
         "   hypotheses are satisfiable: Proofs/FillGraph.v (wit_walk_runs, fill_graph_correct_example) and",
         "   Proofs/FillSpec.v (fill_check_examples).",
-        "   Proofs/FillImage.v (fill_self_correct_example, binary_agrees_example).",
-        "   Not proved: idempotence (fill (fill x) = fill x needs the quotient of the region graph by the repainting; it is",
-        "   checked on the implementation's output on every case). *)",
+        "   Proofs/FillImage.v (fill_self_correct_example, binary_agrees_example), Proofs/FillIdem.v (fill_self_idempotent_example). *)",
         "From Coq Require Import ZArith List Bool.",
-        "From Centro Require Import Base.FillZMap Model.FillHoles Spec.FillHoles Proofs.FillWalk1 Proofs.FillWalk2 Proofs.FillGraph Proofs.FillSpec Proofs.FillFuel Proofs.FillLists Proofs.FillRagged Proofs.FillImage Proofs.FillLabel.",
+        "From Centro Require Import Base.FillZMap Model.FillHoles Spec.FillHoles Proofs.FillWalk1 Proofs.FillWalk2 Proofs.FillGraph Proofs.FillSpec Proofs.FillFuel Proofs.FillLists Proofs.FillRagged Proofs.FillImage Proofs.FillLabel Proofs.FillIdem.",
         "Open Scope Z_scope.", ""]
 for n, doc in LEMMAS:
     body.append("(* %s *)" % doc)
